@@ -64,7 +64,7 @@ DROPPED = [
     "marker types appending Tok::Disp(val_of(x)) / Tok::Dbg(val_of(x)) (val_of uninterpreted); only DisplayTypes::None (= Display, what is parsed back) is claimed, the Debug modes are "
     "verified for panic-freedom only",
     "R3-ref: `DisplayNode::Key(ref pk)` etc. (payload is itself a reference) -> `DisplayNode::Key(pk)`: std `impl Display for &T` forwards to T",
-    "is_wrapper: `self.fragment_name().len()` -> str_len_(self.fragment_name()) (R7-std: byte length = character count for ASCII)",
+    "is_wrapper: `self.fragment_name().len()` -> str_len_(self.fragment_name()) (R7-std: byte length = character count for ASCII; optional: a body that decides by a `match` on the variant is verified as it stands, against the same clause)",
     "impl TreeLike for DisplayNode: as_node / nary_len / nary_index are verified as inherent methods; `Self::NaryChildren` -> `NaryChildren<'a, Pk, Ctx>` (R7), as in c19_ord",
     "Miniscript::from_tree: the TAIL (from `let ret = stack.pop().unwrap()`) is units/c12_from_tree.py's; here the HEAD: signature `fn from_tree_head(root) -> Result<Vec<Arc<Miniscript>>, Error>` "
     "= head text + the tail's first statement `assert_eq!(stack.len(), 1);` (-> assert!(a == b)) + `Ok(stack)`",
@@ -171,7 +171,7 @@ fn str_len_(s: &str) -> (r: usize) ensures s.is_ascii() ==> r == s@.len() { s.le
         vf.fn(DISPLAY, "impl:Terminal<Pk, Ctx>/fn:fragment_name", qual="Terminal", props=PROPS,
               contract=Contract(ensures=[Clause("is_notation_name_with_sugar", P10, "r == frag_str(frag(*self))")]))
         vf.fn(DISPLAY, "impl:Terminal<Pk, Ctx>/fn:is_wrapper", qual="Terminal", props=PROPS,
-              rewrites=[sub("R7-std", r"self\.fragment_name\(\)\.len\(\)", "str_len_(self.fragment_name())"),
+              rewrites=[sub("R7-std", r"\b(\w+)\.fragment_name\(\)\.len\(\)", r"str_len_(\1.fragment_name())", required=False),   # absent when is_wrapper is a `match` on the variant
                         C.ghost_at_body_start("proof { lemma_frag_lens(); }")],
               contract=Contract(ensures=[Clause("exactly_the_wrapper_letters", P10, "r == is_wrap_frag(frag(*self))")]))
     nary = lit("R7", "Self::NaryChildren", "NaryChildren<'a, Pk, Ctx>")
